@@ -152,3 +152,31 @@ func StealBytes(reader io.WriterTo) ([]byte, error) {
 
 	return stealer.Data, nil
 }
+
+// ExactReader wraps a reader that is expected to deliver exactly n more bytes (typically an
+// io.LimitReader over the transport): when the underlying stream ends earlier it reports
+// io.ErrUnexpectedEOF instead of io.EOF, so that a truncated (or empty) frame is never
+// mistaken for a complete one.
+func ExactReader(r io.Reader, n int64) io.Reader {
+	return &exactReader{r: r, n: n}
+}
+
+type exactReader struct {
+	r io.Reader
+	n int64
+}
+
+func (e *exactReader) Read(p []byte) (n int, err error) {
+	if e.n <= 0 {
+		return 0, io.EOF
+	}
+	if int64(len(p)) > e.n {
+		p = p[:e.n]
+	}
+	n, err = e.r.Read(p)
+	e.n -= int64(n)
+	if io.EOF == err && e.n > 0 {
+		err = io.ErrUnexpectedEOF
+	}
+	return
+}
